@@ -233,7 +233,9 @@ def strptime_re(fmt):
                       a("1", "9"), z3.Concat(z3.Re(" "), a("1", "9"))),
         "H": z3.Union(z3.Concat(z3.Re("2"), a("0", "3")), z3.Concat(a("0", "1"), d), d),
         "M": z3.Union(z3.Concat(a("0", "5"), d), d),
-        "S": z3.Union(z3.Concat(z3.Re("6"), a("0", "1")), z3.Concat(a("0", "5"), d), d),
+        # _strptime's regex also matches 60 and 61, but datetime() then refuses them ("second must be in 0..59"):
+        # for datetime.strptime they end in ValueError like any other mismatch
+        "S": z3.Union(z3.Concat(a("0", "5"), d), d),
         "f": z3.Loop(DIG, 1, 6),
     }
     parts = []
